@@ -68,7 +68,7 @@ def gen_history(rng, stats):
     return prog, ";".join(ops)
 
 
-def growth_sweep():
+def growth_sweep(thorough=True):
     """each kind of growing state x size {1, 100, 511, 512, 513, 1500} x idle time {0, 9, 61, 71, 3601} s, then touched again"""
     feats = {
         "ratecounter entry": ('set var.n = ratelimit.ratecounter_increment(rc0, "k", 1);', 50, "error"),
@@ -78,8 +78,13 @@ def growth_sweep():
         "subroutine calls": ("call helper;", 50, "error"),
     }
     for name, (stmt, per_request, route) in feats.items():
-        for size in ((1, 100, 511, 512, 513, 1500) if per_request > 1 else (1, 100, 513, 1500)):
-            for idle in ((0, 9, 61, 71, 3601) if per_request > 1 else (0, 71, 3601)):
+        sizes = (1, 100, 511, 512, 513, 1500) if per_request > 1 else (1, 100, 513, 1500)
+        idles = (0, 9, 61, 71, 3601) if per_request > 1 else (0, 71, 3601)
+        if not thorough:          # quick: the sizes around the thresholds and the idle times around the windows
+            sizes = (1, 511, 513, 1500) if per_request > 1 else (1, 513)
+            idles = (0, 71, 3601)
+        for size in sizes:
+            for idle in idles:
                 rep = per_request if size >= per_request else 1
                 nreq, rest = divmod(size, rep)
                 prog = program([stmt], rep, "60s", route)
